@@ -231,16 +231,20 @@ fn parse_sexpr(t: &[String], pos: &mut usize) -> Result<SymExpr, String> {
 }
 
 // ---------------------------------------------------------------------------
-// Parser for the `Display` form of SymExpr, which is what graph-level shape
+// Reader for the `Display` form of SymExpr, which is what graph-level shape
 // inference hands out (`Dimension::Symbolic(expr.to_string())`).
 //
-// Grammar as printed by rten (precedence: Sub/Neg 0 < Add 1 < Mul 2 < Div 3 <
-// atoms/functions 4; a child is parenthesised iff its precedence is lower than
-// the parent's, so operators of equal precedence nest without parentheses on
-// either side). Printing is therefore ambiguous for right-nested equal-
-// precedence children: `a - (b - c)` prints as `a - b - c`, `a / (b / c)` as
-// `a / b / c`. The parser returns `None` for every string that has more than
-// one reading with different structure (see `parse_display`).
+// rten prints with a precedence table (Sub = Neg = 0 < Add = 1 < Mul = 2 <
+// Div = DivCeil = 3 < Value/Var/Max/Min/Broadcast = 4); an operand of a binary
+// operator is parenthesised iff its precedence is lower than the operator's,
+// `Neg` prints `-` directly followed by its operand without parentheses, and
+// ceil_div/max/min/broadcast print as function calls. That printout is not
+// injective (`-1 + a` is Add(-1, a) and Neg(Add(1, a)); `a - b - c`, `a / b / c`
+// have two bracketings). The reader therefore returns ALL expression trees whose
+// printout is exactly the given string (chart parser over token spans that
+// mirrors the printing rules). A claim is judged only against the whole set of
+// readings; `selftest_display_reader` checks on real SymExpr printouts that the
+// true tree is always among the readings.
 
 #[derive(Clone, Debug, PartialEq)]
 enum Tok {
@@ -250,8 +254,9 @@ enum Tok {
     RParen,
     Comma,
     Plus,
+    /// ` - ` (binary minus, printed with spaces)
     Minus,
-    /// `-` directly followed by an operand (no space): negation
+    /// `-` directly followed by an operand
     NegSign,
     Star,
     Slash,
@@ -290,26 +295,9 @@ fn lex_display(s: &str) -> Option<Vec<Tok>> {
                 i += 1
             }
             '-' => {
-                // Binary minus is printed as " - " (spaces on both sides);
-                // negation and negative literals have no following space.
                 let next_space = b.get(i + 1).map(|c| *c == ' ').unwrap_or(true);
-                if next_space {
-                    out.push(Tok::Minus);
-                    i += 1;
-                } else if b.get(i + 1).map(|c| c.is_ascii_digit()).unwrap_or(false) {
-                    // Negative literal `-3` or negation of a literal `-(3)`:
-                    // both denote the same value unless the literal is 2^31.
-                    let mut j = i + 1;
-                    while j < b.len() && b[j].is_ascii_digit() {
-                        j += 1;
-                    }
-                    let txt: String = b[i..j].iter().collect();
-                    out.push(Tok::Num(txt.parse().ok()?));
-                    i = j;
-                } else {
-                    out.push(Tok::NegSign);
-                    i += 1;
-                }
+                out.push(if next_space { Tok::Minus } else { Tok::NegSign });
+                i += 1;
             }
             c if c.is_ascii_digit() => {
                 let mut j = i;
@@ -334,7 +322,7 @@ fn lex_display(s: &str) -> Option<Vec<Tok>> {
     Some(out)
 }
 
-/// Expression tree parsed from the display form. Symbol positivity is not
+/// Expression tree read from the display form. Symbol positivity is not
 /// printed; it is irrelevant for evaluation.
 #[derive(Clone, Debug, PartialEq)]
 pub enum PExpr {
@@ -344,187 +332,179 @@ pub enum PExpr {
     Bin(&'static str, Box<PExpr>, Box<PExpr>),
 }
 
-struct P<'a> {
-    t: &'a [Tok],
-    i: usize,
-    /// set when a construct with more than one structural reading was met
-    ambiguous: bool,
-}
-
-impl<'a> P<'a> {
-    fn peek(&self) -> Option<&Tok> {
-        self.t.get(self.i)
-    }
-    fn eat(&mut self, tok: &Tok) -> bool {
-        if self.peek() == Some(tok) {
-            self.i += 1;
-            true
-        } else {
-            false
-        }
-    }
-    // level 0: Sub chain of level-0.. operands. `x - y` where the printer put
-    // no parentheses around a Sub/Neg child on the right. Left-assoc reading is
-    // taken; a chain of two or more `-`/mixed with `+` on this level where the
-    // right operand could itself have been a Sub is ambiguous.
-    fn expr(&mut self) -> Option<PExpr> {
-        // Parse a flat sequence of additive terms and record operators.
-        let first = self.term()?;
-        let mut ops: Vec<(char, PExpr)> = Vec::new();
-        loop {
-            if self.eat(&Tok::Plus) {
-                ops.push(('+', self.term()?));
-            } else if self.eat(&Tok::Minus) {
-                ops.push(('-', self.term()?));
-            } else {
-                break;
-            }
-        }
-        // Readings: printer output for Add(l, r) parenthesises children of
-        // lower precedence (Sub, Neg) and prints Add/… children bare. For
-        // Sub(l, r) no child is ever parenthesised (precedence 0 is minimal).
-        // Addition is associative, so only what follows a `-` matters:
-        // `p - q + r` may be Sub(p, Add(q, r)) or Add(Sub(p,q), r)?? The
-        // latter would have been printed `(p - q) + r`. So after a `-`, all
-        // remaining `+`/`-` terms belong to the right operand or to an outer
-        // Sub: `p - q - r` = Sub(Sub(p,q),r) or Sub(p,Sub(q,r)): ambiguous.
-        // `p - q + r` = Sub(p, Add(q, r)) only. `p + q - r` = Sub(Add(p,q), r)
-        // only (Add(p, Sub(q,r)) prints with parentheses).
-        let minus_positions: Vec<usize> =
-            ops.iter().enumerate().filter(|(_, (c, _))| *c == '-').map(|(i, _)| i).collect();
-        match minus_positions.len() {
-            0 => {
-                let mut acc = first;
-                for (_, t) in ops {
-                    acc = PExpr::Bin("Add", Box::new(acc), Box::new(t));
-                }
-                Some(acc)
-            }
-            1 => {
-                let m = minus_positions[0];
-                let mut lhs = first;
-                let mut it = ops.into_iter();
-                for _ in 0..m {
-                    let (_, t) = it.next().unwrap();
-                    lhs = PExpr::Bin("Add", Box::new(lhs), Box::new(t));
-                }
-                let (_, mut rhs) = it.next().unwrap();
-                for (_, t) in it {
-                    rhs = PExpr::Bin("Add", Box::new(rhs), Box::new(t));
-                }
-                Some(PExpr::Bin("Sub", Box::new(lhs), Box::new(rhs)))
-            }
-            _ => {
-                self.ambiguous = true;
-                None
-            }
-        }
-    }
-    // level 2: Mul chain (associative, any nesting has the same value)
-    fn term(&mut self) -> Option<PExpr> {
-        let mut acc = self.factor()?;
-        while self.eat(&Tok::Star) {
-            let r = self.factor()?;
-            acc = PExpr::Bin("Mul", Box::new(acc), Box::new(r));
-        }
-        Some(acc)
-    }
-    // level 3: Div chain. `p / q / r` is Div(Div(p,q),r) or Div(p,Div(q,r)).
-    fn factor(&mut self) -> Option<PExpr> {
-        let first = self.atom()?;
-        let mut rest = Vec::new();
-        while self.eat(&Tok::Slash) {
-            rest.push(self.atom()?);
-        }
-        match rest.len() {
-            0 => Some(first),
-            1 => Some(PExpr::Bin("Div", Box::new(first), Box::new(rest.pop().unwrap()))),
-            _ => {
-                self.ambiguous = true;
-                None
-            }
-        }
-    }
-    fn atom(&mut self) -> Option<PExpr> {
-        match self.peek()?.clone() {
-            Tok::Num(n) => {
-                self.i += 1;
-                Some(PExpr::Num(n))
-            }
-            Tok::NegSign => {
-                // `-E` where E is printed with the parenthesisation rule of a
-                // precedence-0 parent: never parenthesised. `-a + b` could be
-                // Neg(Add(a,b)) or (as a child of Add, parenthesised) ... the
-                // bare form at this position is ambiguous unless E is an atom
-                // that ends the expression level; be conservative: accept only
-                // when the operand is an atom and the next token closes the
-                // current level or continues with an operator of *lower or
-                // equal* binding that the printer would also have produced
-                // for Neg(atom) as a left operand: a Neg child is
-                // parenthesised inside Add/Mul/Div parents, never inside Sub.
-                self.i += 1;
-                let inner = self.atom()?;
-                match self.peek() {
-                    None | Some(Tok::RParen) | Some(Tok::Comma) => {}
-                    // `-a - b` = Sub(Neg(a), b) or Neg(Sub(a, b)); `-a + b`
-                    // = Neg(Add(a,b)) only, but keep it simple.
-                    _ => {
-                        self.ambiguous = true;
-                        return None;
-                    }
-                }
-                Some(PExpr::Neg(Box::new(inner)))
-            }
-            Tok::LParen => {
-                self.i += 1;
-                let e = self.expr()?;
-                if !self.eat(&Tok::RParen) {
-                    return None;
-                }
-                Some(e)
-            }
-            Tok::Name(n) => {
-                self.i += 1;
-                let func = match n.as_str() {
-                    "ceil_div" => Some("DivCeil"),
-                    "max" => Some("Max"),
-                    "min" => Some("Min"),
-                    "broadcast" => Some("Broadcast"),
-                    _ => None,
-                };
-                if let (Some(f), Some(Tok::LParen)) = (func, self.peek()) {
-                    self.i += 1;
-                    let l = self.expr()?;
-                    if !self.eat(&Tok::Comma) {
-                        return None;
-                    }
-                    let r = self.expr()?;
-                    if !self.eat(&Tok::RParen) {
-                        return None;
-                    }
-                    Some(PExpr::Bin(f, Box::new(l), Box::new(r)))
-                } else {
-                    Some(PExpr::Var(n))
-                }
-            }
-            _ => None,
-        }
-    }
-}
-
-/// Parse the display form. `Ok(None)`: the string is a well-formed printout
-/// with more than one structural reading (not evaluated by the caller).
-/// `Err`: not a printout of a SymExpr at all (machinery problem).
-pub fn parse_display(s: &str) -> Result<Option<PExpr>, String> {
-    let toks = lex_display(s).ok_or_else(|| format!("cannot tokenise {s:?}"))?;
-    let mut p = P { t: &toks, i: 0, ambiguous: false };
-    let e = p.expr();
-    if p.ambiguous {
-        return Ok(None);
-    }
+fn pprec(e: &PExpr) -> u8 {
     match e {
-        Some(e) if p.i == toks.len() => Ok(Some(e)),
-        _ => Err(format!("cannot parse {s:?}")),
+        PExpr::Num(_) | PExpr::Var(_) => 4,
+        PExpr::Neg(_) => 0,
+        PExpr::Bin(op, ..) => match *op {
+            "Sub" => 0,
+            "Add" => 1,
+            "Mul" => 2,
+            "Div" | "DivCeil" => 3,
+            _ => 4,
+        },
+    }
+}
+
+/// Maximum number of readings kept per token span; more => "too ambiguous".
+const MAX_READINGS: usize = 64;
+
+struct Chart<'a> {
+    t: &'a [Tok],
+    /// index of the matching parenthesis for each LParen/RParen
+    mate: Vec<usize>,
+    depth: Vec<usize>,
+    memo: std::collections::HashMap<(usize, usize), Option<Vec<PExpr>>>,
+}
+
+impl<'a> Chart<'a> {
+    /// All trees whose bare printout is exactly tokens[i..j). None = overflow.
+    fn parses(&mut self, i: usize, j: usize) -> Option<Vec<PExpr>> {
+        if let Some(r) = self.memo.get(&(i, j)) {
+            return r.clone();
+        }
+        let r = self.parses_uncached(i, j);
+        self.memo.insert((i, j), r.clone());
+        r
+    }
+
+    fn push(out: &mut Vec<PExpr>, e: PExpr) -> Option<()> {
+        if !out.contains(&e) {
+            if out.len() >= MAX_READINGS {
+                return None;
+            }
+            out.push(e);
+        }
+        Some(())
+    }
+
+    fn parses_uncached(&mut self, i: usize, j: usize) -> Option<Vec<PExpr>> {
+        let mut out: Vec<PExpr> = Vec::new();
+        if i >= j {
+            return Some(out);
+        }
+        let t = self.t;
+        // atoms
+        if j - i == 1 {
+            match &t[i] {
+                Tok::Num(n) => out.push(PExpr::Num(*n)),
+                Tok::Name(n) => out.push(PExpr::Var(n.clone())),
+                _ => {}
+            }
+            return Some(out);
+        }
+        if t[i] == Tok::NegSign {
+            // negative literal
+            if j - i == 2 {
+                if let Tok::Num(n) = &t[i + 1] {
+                    Self::push(&mut out, PExpr::Num(-*n))?;
+                }
+            }
+            // negation of everything that follows (never parenthesised)
+            for e in self.parses(i + 1, j)? {
+                Self::push(&mut out, PExpr::Neg(Box::new(e)))?;
+            }
+        }
+        // function call spanning the whole range
+        if let Tok::Name(f) = &t[i] {
+            let func = match f.as_str() {
+                "ceil_div" => Some("DivCeil"),
+                "max" => Some("Max"),
+                "min" => Some("Min"),
+                "broadcast" => Some("Broadcast"),
+                _ => None,
+            };
+            if let Some(func) = func {
+                if t[i + 1] == Tok::LParen && self.mate[i + 1] == j - 1 {
+                    let d = self.depth[i + 1] + 1;
+                    for k in (i + 2)..(j - 1) {
+                        if t[k] == Tok::Comma && self.depth[k] == d {
+                            let ls = self.parses(i + 2, k)?;
+                            let rs = self.parses(k + 1, j - 1)?;
+                            for l in &ls {
+                                for r in &rs {
+                                    Self::push(&mut out, PExpr::Bin(func, Box::new(l.clone()), Box::new(r.clone())))?;
+                                }
+                            }
+                        }
+                    }
+                }
+            }
+        }
+        // binary operators at the nesting depth of the span
+        let d0 = self.depth[i];
+        for k in (i + 1)..(j - 1) {
+            if self.depth[k] != d0 {
+                continue;
+            }
+            let (op, p) = match t[k] {
+                Tok::Plus => ("Add", 1u8),
+                Tok::Minus => ("Sub", 0),
+                Tok::Star => ("Mul", 2),
+                Tok::Slash => ("Div", 3),
+                _ => continue,
+            };
+            let ls = self.operand(i, k, p)?;
+            if ls.is_empty() {
+                continue;
+            }
+            let rs = self.operand(k + 1, j, p)?;
+            for l in &ls {
+                for r in &rs {
+                    Self::push(&mut out, PExpr::Bin(op, Box::new(l.clone()), Box::new(r.clone())))?;
+                }
+            }
+        }
+        Some(out)
+    }
+
+    /// Trees that can stand as an operand of an operator of precedence `p` with
+    /// printed text tokens[i..j): bare if their precedence is >= p,
+    /// parenthesised if it is lower.
+    fn operand(&mut self, i: usize, j: usize, p: u8) -> Option<Vec<PExpr>> {
+        let mut out: Vec<PExpr> = self.parses(i, j)?.into_iter().filter(|e| pprec(e) >= p).collect();
+        if j - i >= 3 && self.t[i] == Tok::LParen && self.mate[i] == j - 1 {
+            for e in self.parses(i + 1, j - 1)? {
+                if pprec(&e) < p && !out.contains(&e) {
+                    out.push(e);
+                }
+            }
+        }
+        Some(out)
+    }
+}
+
+/// All readings of a printed SymExpr. `Ok(None)`: more than MAX_READINGS.
+/// `Err`: the string is not a printout of any SymExpr (machinery problem).
+pub fn parse_display(s: &str) -> Result<Option<Vec<PExpr>>, String> {
+    let toks = lex_display(s).ok_or_else(|| format!("cannot tokenise {s:?}"))?;
+    let n = toks.len();
+    let mut mate = vec![usize::MAX; n];
+    let mut depth = vec![0usize; n];
+    let mut stack = Vec::new();
+    for (i, t) in toks.iter().enumerate() {
+        match t {
+            Tok::LParen => {
+                depth[i] = stack.len();
+                stack.push(i);
+            }
+            Tok::RParen => {
+                let o = stack.pop().ok_or_else(|| format!("unbalanced parentheses in {s:?}"))?;
+                mate[o] = i;
+                mate[i] = o;
+                depth[i] = stack.len();
+            }
+            _ => depth[i] = stack.len(),
+        }
+    }
+    if !stack.is_empty() {
+        return Err(format!("unbalanced parentheses in {s:?}"));
+    }
+    let mut chart = Chart { t: &toks, mate, depth, memo: Default::default() };
+    match chart.parses(0, n) {
+        None => Ok(None),
+        Some(v) if v.is_empty() => Err(format!("no reading of {s:?}")),
+        Some(v) => Ok(Some(v)),
     }
 }
 
@@ -564,18 +544,50 @@ pub fn eval_pexpr<F: Fn(&str) -> Option<i64>>(e: &PExpr, env: &F) -> Result<i64,
     }
 }
 
-pub fn pexpr_vars(e: &PExpr, out: &mut Vec<String>) {
+pub fn to_pexpr(e: &SymExpr) -> PExpr {
     match e {
-        PExpr::Num(_) => {}
-        PExpr::Var(n) => {
-            if !out.contains(n) {
-                out.push(n.clone())
-            }
-        }
-        PExpr::Neg(x) => pexpr_vars(x, out),
-        PExpr::Bin(_, l, r) => {
-            pexpr_vars(l, out);
-            pexpr_vars(r, out);
+        SymExpr::Value(v) => PExpr::Num(*v as i64),
+        SymExpr::Var(s) => PExpr::Var(s.name.clone()),
+        SymExpr::Neg(x) => PExpr::Neg(Box::new(to_pexpr(x))),
+        _ => {
+            let (l, r) = children(e);
+            PExpr::Bin(op_name(e), Box::new(to_pexpr(l.unwrap())), Box::new(to_pexpr(r.unwrap())))
         }
     }
+}
+
+/// Structural equality up to the one identification the printer makes that
+/// cannot matter: `Neg(Num(c))` and `Num(-c)` print identically and denote the
+/// same value.
+fn norm(e: &PExpr) -> PExpr {
+    match e {
+        PExpr::Neg(x) => match norm(x) {
+            PExpr::Num(c) if c != i64::MIN => PExpr::Num(-c),
+            x => PExpr::Neg(Box::new(x)),
+        },
+        PExpr::Bin(op, l, r) => PExpr::Bin(op, Box::new(norm(l)), Box::new(norm(r))),
+        e => e.clone(),
+    }
+}
+
+/// Machinery self-check: for real printouts, the true tree must be among the
+/// readings. Returns (strings checked, strings with more than one reading).
+pub fn selftest_display_reader(exprs: &[SymExpr]) -> Result<(u64, u64), String> {
+    let mut ambiguous = 0;
+    for e in exprs {
+        let s = e.to_string();
+        match parse_display(&s)? {
+            None => ambiguous += 1,
+            Some(rs) => {
+                let want = norm(&to_pexpr(e));
+                if !rs.iter().any(|r| norm(r) == want) {
+                    return Err(format!("display reader misses the true tree of {s:?}: {:?} not in {:?}", want, rs));
+                }
+                if rs.len() > 1 {
+                    ambiguous += 1;
+                }
+            }
+        }
+    }
+    Ok((exprs.len() as u64, ambiguous))
 }
